@@ -18,6 +18,8 @@ import (
 
 	"github.com/bufbuild/protocompile"
 	"github.com/bufbuild/protocompile/linker"
+
+	"verifharness/sim"
 )
 
 // Generated descriptor files for the C17 histories. The fixed pool of
@@ -154,7 +156,7 @@ func (f *GenSymFile) proto(idx int) *descriptorpb.FileDescriptorProto {
 		b := genBases[e.Base]
 		name := fmt.Sprintf("ge%d_%d", idx, k)
 		fdp.Extension = append(fdp.Extension, &descriptorpb.FieldDescriptorProto{
-			Name: proto.String(name), JsonName: proto.String(name), Number: proto.Int32(int32(e.Tag)),
+			Name: proto.String(name), Number: proto.Int32(int32(e.Tag)),
 			Label: descriptorpb.FieldDescriptorProto_LABEL_OPTIONAL.Enum(), Type: descriptorpb.FieldDescriptorProto_TYPE_INT32.Enum(),
 			Extendee: proto.String("." + b.pkg + "." + b.msg),
 		})
@@ -299,7 +301,9 @@ func poolFor(gen []GenSymFile) *symPoolT {
 		}
 		fd, err := protodesc.NewFile(fdp, built)
 		if err != nil {
-			continue
+			// the generator only produces well-formed files; anything else is a
+			// mistake in it, not something to skip silently
+			panic(sim.HarnessFault{Msg: fmt.Sprintf("C17 generated file %s cannot be built: %v", fdp.GetName(), err)})
 		}
 		var fdUse protoreflect.FileDescriptor = fd
 		form := "/pd"
